@@ -1400,9 +1400,8 @@ class Explorer:
                 # a local that holds the outcome of a pure test (`space_left = len(self.items) < self.capacity`): testing the local later is testing
                 # that expression, as long as nothing it reads has changed in between (remembered with the list versions at this point)
                 if len(targets) == 1 and isinstance(targets[0], ast.Name) and isinstance(n.value, (ast.Compare, ast.BoolOp)) and self.is_pure_test(n.value) \
-                        and not any(isinstance(x, ast.Name) and x.id == targets[0].id for x in ast.walk(n.value)) \
-                        and any(isinstance(x, ast.Call) and isinstance(x.func, ast.Name) and x.func.id == 'len' for x in ast.walk(n.value)):
-                    # (a length test: decided here, where the lists are as the test saw them; the local then is that boolean)
+                        and not any(isinstance(x, ast.Name) and x.id == targets[0].id for x in ast.walk(n.value)):
+                    # (decided here, where the lists and locals are as the test saw them; the local then is that boolean)
                     for b, s2 in self.cond(n.value, s):
                         if b is RAISE:
                             res.append((s2, self.raise_status(s2)))
